@@ -179,10 +179,17 @@ fn update_file_content_inner(file_name: &str, content: &str) {
         let mut resolver = WasmModuleResolver::new();
         parse_and_bind(&mut resolver, &file_name, content)
     });
-    if let Ok(f) = res {
-        BUNDLER.with(|b| {
-            let mut b = b.borrow_mut();
-            b.files.insert(file_name, f);
-        })
-    }
+    BUNDLER.with(|b| {
+        let mut b = b.borrow_mut();
+        match res {
+            Ok(f) => {
+                b.files.insert(file_name, f);
+            }
+            // the new content does not parse: forget the module parsed from the previous content, so that the
+            // next rebuild reports what a fresh run on the current files reports
+            Err(_) => {
+                b.files.remove(&file_name);
+            }
+        }
+    })
 }
